@@ -581,6 +581,9 @@ class GroupBy:
         elif keep_chunked:
             # no pointers to unify, but we want to keep chunked so do nothing
             return
+        else:
+            # already unified (global codes in every chunk): only concatenate
+            chunks = [chunk.to_numpy() for chunk in self._group_ikey.chunks]
 
         if keep_chunked:
             self._group_ikey = pa.chunked_array(chunks)
